@@ -389,27 +389,35 @@ class Pool:
             raise errors[0]
         # A request that did not answer in time may only have been starved (other checks, TLC, a loaded machine):
         # the first few are asked again on an otherwise idle pool with three times the patience.  A real hang hangs again.
-        hung = [i for i, r in enumerate(out) if r is not None and "hang" in r][:6]
+        hung = [i for i, r in enumerate(out) if r is not None and "hang" in r]
         if hung:
-            # (six workers on 16 cores are still an idle machine; long timeouts are not multiplied - starvation costs
-            # seconds, not minutes)
+            # (16 requests at a time, each with a worker of its own; long timeouts are not multiplied - starvation costs
+            # seconds, not minutes.  Rounds go on while they clear anything: two rounds in a row in which every request
+            # hangs again mean the code under test hangs, and the rest is not asked again.)
             patience = min(timeout * 3, max(timeout, 45))
 
-            def again(i):
+            def again(i, cleared):
                 w = _Worker(self.binary, self.env, self.memlimit_kb)
                 try:
                     r = w.run_chunk([reqs[i]], patience)[0]
                     if r is not None and "hang" not in r:
                         out[i] = r
+                        cleared.append(i)
                 except Exception:
                     pass
                 finally:
                     w.close()
-            rts = [threading.Thread(target=again, args=(i,)) for i in hung]
-            for t in rts:
-                t.start()
-            for t in rts:
-                t.join()
+            pending = list(hung)
+            barren = 0
+            while pending and barren < 2:
+                batch, pending = pending[:16], pending[16:]
+                cleared = []
+                rts = [threading.Thread(target=again, args=(i, cleared)) for i in batch]
+                for t in rts:
+                    t.start()
+                for t in rts:
+                    t.join()
+                barren = 0 if cleared else barren + 1
         for i, r in enumerate(out):
             if r is None:
                 raise Machinery("no response for request %d" % i)
